@@ -157,6 +157,14 @@ def load_known():
         return {"findings": [], "fixed": []}
 
 
+def load_baseline(pid):
+    """obligations known to discharge on the unchanged tree (committed; written by tools/make_baseline.sh)"""
+    try:
+        return set(json.load(open(os.path.join(VERIF, "baseline", f"{pid}.json"))))
+    except Exception:
+        return set()
+
+
 def check_property(pid, units, tier="quick", seed=0, extra=None):
     """returns exit code; prints VIOLATION / KNOWN-FINDING / UNDECIDED lines; writes evidence"""
     t0 = time.time()
@@ -236,10 +244,27 @@ def check_property(pid, units, tier="quick", seed=0, extra=None):
             uniq.append(l)
     out_lines = uniq
     viol_lines = []
+    baseline = load_baseline(pid)
+    seen_clause = {}
     for r, label, ob, s in violations:
+        full = f"{r.unit.name}[{label}]/{ob.name}"
+        key = (r.unit.name, ob.name)
+        if key in seen_clause:
+            seen_clause[key] += 1
+            continue   # one VIOLATION line per violated clause (first configuration); the others are counted
         rp, reproduced = RP.write_replay(pid, r, label, ob, s, replay_dir, known=False, want_status=True)
+        solver_sat = any(l[0] in ("z3-prove", "z3-prove-2", "cvc5-prove") and l[1] == "sat" for l in (s.get("log") or []))
+        if not (reproduced or solver_sat or full in baseline):
+            # only a quantifier-free weakening is satisfiable, nothing replays, and the obligation is not one that is known to
+            # discharge on the unchanged tree: that is an undischarged obligation, not a violation
+            undecided.append((full, "candidate counterexample from the grounded query only (not confirmed)", s.get("log")))
+            continue
+        seen_clause[key] = 1
         suffix = "" if reproduced else " no-failing-input-found"
-        viol_lines.append(f"VIOLATION property={pid} replay={os.path.relpath(rp, VERIF)} obligation={r.unit.name}[{label}]/{ob.name}{suffix}")
+        viol_lines.append(f"VIOLATION property={pid} replay={os.path.relpath(rp, VERIF)} obligation={full}{suffix}")
+    if os.environ.get("VERIF_WRITE_BASELINE") == "1" and not violations and not errors:
+        os.makedirs(os.path.join(VERIF, "baseline"), exist_ok=True)
+        json.dump(sorted(k for k, v in per_clause.items() if all(x == "proved" for x in v)), open(os.path.join(VERIF, "baseline", f"{pid}.json"), "w"), indent=0)
 
     wall = time.time() - t0
     ev = {
